@@ -159,6 +159,11 @@ impl<DataInterfaceType: DeduplicationDataInterface> FileDeduper<DataInterfaceTyp
         // Now, go through and process the result of the query.
         let mut cur_idx = 0;
 
+        // End (exclusive) of the chunk ranges whose dedup was refused by fragmentation prevention so far.
+        // A chunk of such a range is counted as withheld when it is actually stored as new data below, so
+        // every withheld chunk is counted exactly once and only if it really is new data.
+        let mut defrag_refused_end = 0;
+
         while cur_idx < chunks.len() {
             let mut dedupe_query = deduped_blocks[cur_idx].take();
 
@@ -187,13 +192,17 @@ impl<DataInterfaceType: DeduplicationDataInterface> FileDeduper<DataInterfaceTyp
                     cur_idx += n_deduped;
                     continue;
                 } else {
-                    dedup_metrics.defrag_prevented_dedup_chunks += n_deduped;
-                    dedup_metrics.defrag_prevented_dedup_bytes += fse.unpacked_segment_bytes as usize;
+                    defrag_refused_end = defrag_refused_end.max(cur_idx + n_deduped);
                 }
             }
 
             // Okay, now we need to add new data.
             let n_bytes = chunks[cur_idx].data.len();
+
+            if cur_idx < defrag_refused_end {
+                dedup_metrics.defrag_prevented_dedup_chunks += 1;
+                dedup_metrics.defrag_prevented_dedup_bytes += n_bytes;
+            }
 
             dedup_metrics.total_chunks += 1;
             dedup_metrics.total_bytes += n_bytes;
